@@ -154,6 +154,8 @@ infeasible("text", "NotImplementedError", "dns.query.*", "DummyTransactionManage
 infeasible("text", "TypeError", "dns.*Immutable*.*", "a write transaction only touches nodes/rdatasets it copied (C10 R-10.3); immutable variants are a virtual-dispatch over-approximation")
 infeasible("text", "TypeError", "dns.transaction.Transaction.*", "argument-shape errors of the public add/replace API; the zone reader always calls txn.add(name, ttl, rdata)")
 infeasible("text", "dns.btree.Immutable", "dns.btree.BTree._check_mutable_and_park", "the version being loaded is a fresh WritableVersion (mutable tree)")
+infeasible("text", "ValueError", "dns.btree._Node.delete", "both raises sit under `exact is not None`; the zone reader reaches _Node.delete only through BTreeSet.discard -> delete_key, which passes exact=None "
+           "(btreezone.put_rdataset un-delegating a name whose NS rdataset was evicted)")
 infeasible("text", "dns.versioned.UseTransaction", "dns.versioned.Zone.*", "legacy mutators of versioned.Zone are not called by transactions (virtual-dispatch over-approximation)")
 infeasible("text", "dns.transaction.AlreadyEnded", "*", "the reader uses its transaction before committing it")
 infeasible("text", "dns.transaction.ReadOnly", "*", "the reader is given a write transaction")
